@@ -114,15 +114,7 @@ def canonical_program(root=None, overlay=None, use_cache=True):
         verdicts = {}
         for q in changed:
             try:
-                symeval.set_program(ref)
-                s1 = equiv.summarize(ref, q)
-                symeval.set_program(cur)
-                s2 = equiv.summarize(cur, q)
-                r = equiv.compare(s1, s2)
-                if r is not None:
-                    r2 = equiv.compare_by_cases(s1, s2)
-                    if r2 is None:
-                        r = None
+                r = equiv.prove(ref, cur, q)
                 verdicts[q] = [r is None, r]
             except equiv.NotComparable as e:
                 verdicts[q] = [None, "not comparable: %s" % e]
